@@ -81,7 +81,7 @@ func (conn *Conn) destroyFids() {
 	}
 	conn.Unlock()
 	for _, fid := range fids {
-		fid.DecRef()
+		fid.unbind()
 	}
 }
 
